@@ -10,8 +10,9 @@
    differ, and so do the data nodes lifted out of the cases of one choice, so
    every generated schema is legal YANG.  Types are string / int8 / empty, direct
    or through a typedef.  mode "path": no constraints; mode "keys": as "path", but
-   a list has one to three keys (types string / int8 / boolean, direct or through a
-   typedef), its key leaves stand in a drawn order at drawn places among the other
+   leaves and leaf-lists alike take every type of SchemaNodes (string int8 empty boolean
+   enum union, direct or through a typedef),
+   a list has one to three keys (every type but empty), its key leaves stand in a drawn order at drawn places among the other
    children, whatever the order of the key statement; mode "data": mandatory,
    default, min-/max-elements, one to three unique statements, default /
    mandatory choices (respecting RFC 6020: no default on a mandatory leaf, no
@@ -51,7 +52,9 @@ RandMerge(a, b) ==
 
 \* mode "keys": the list nm at position pos with the other children `others`: K key leaves (the key statement names
 \* them in the order kq, jq, iq), declared in a drawn order and merged into the other children
-KeyTypes == {"string", "int8", "tstring", "tint8", "boolean"}
+KeyTypes == {"string", "int8", "tstring", "tint8", "boolean", "tbool", "enum", "tenum", "union", "tunion"}
+\* mode "keys": leaves AND leaf-lists take every type (type empty is legal for a leaf-list in RFC 6020)
+AllValueTypes == KeyTypes \cup {"empty", "tempty"}
 RandKeyedList(nm, pos, others) ==
   LET k4  == RandomElement(1..4)
       K   == IF k4 = 4 THEN 2 ELSE k4
@@ -67,7 +70,8 @@ RandLeaf(nm, mode) ==
   LET t == RandomElement({"string", "tstring", "int8", "tint8", "empty", "tempty"})
       r == RandomElement(1..4)
       rare == RandomElement(1..4) IN
-  IF Plain(mode) THEN Leaf(nm, t)
+  IF mode = "keys" THEN Leaf(nm, RandomElement(AllValueTypes))
+  ELSE IF Plain(mode) THEN Leaf(nm, t)
   ELSE IF r = 1 /\ (mode # "sparse" \/ rare = 1) THEN LeafM(nm, t)
   ELSE IF r = 2 /\ ~IsEmptyType(t) THEN LeafD(nm, t, IF BaseType(t) = "int8" THEN "7" ELSE "dv")
   ELSE Leaf(nm, t)
@@ -75,7 +79,8 @@ RandLL(nm, mode) ==
   LET t == RandomElement({"string", "int8", "tint8"})
       mm == RandomElement({<<0, 0>>, <<0, 0>>, <<1, 0>>, <<0, 2>>, <<1, 2>>, <<2, 3>>})
       rare == RandomElement(1..4) IN
-  IF Plain(mode) THEN LL(nm, t)
+  IF mode = "keys" THEN LL(nm, RandomElement(AllValueTypes))
+  ELSE IF Plain(mode) THEN LL(nm, t)
   ELSE IF mode = "sparse" /\ rare # 1 THEN LLmm(nm, t, 0, mm[2])
   ELSE LLmm(nm, t, mm[1], mm[2])
 
